@@ -393,7 +393,8 @@ def _dump_parts(r):
 
 
 def same(m, i, c):
-    if isinstance(i, str) and i.startswith('!TIMEOUT'):
+    d = c['desc']
+    if isinstance(i, str) and i.startswith('!TIMEOUT') and not (d['fn'] == 'chars' and sep_may_be_empty(d['sep'])):
         import common                   # a loaded machine: run the case once more, alone
         r = common._pool_call((impl, c, 60.0))
         i = r if isinstance(r, str) else '!' + str(r[0])
@@ -903,7 +904,23 @@ def gen_cases(seed, tier):
         c = _case({'fn': 'argkv', 's': '\\item[' + s.replace(']', '') + ']', 'arg': 0, 'policy': rnd.choice(POLICIES)})
         if c and _parses(c['desc']['s']):
             cases.append(c)
-    return cases
+    return _spread(cases)
+
+
+def _spread(cases):
+    """the empty-separator cases are the ones that hang on a tree without fix C18-empty-separator:
+    spread them over the stream so that the worker pool does not run them one after the other"""
+    def slow(c):
+        return c['desc']['fn'] == 'chars' and sep_may_be_empty(c['desc']['sep'])
+    hang = [c for c in cases if slow(c)]
+    rest = [c for c in cases if not slow(c)]
+    step = max(1, len(rest) // (len(hang) + 1))
+    out = []
+    for k, c in enumerate(hang):
+        out.extend(rest[k * step:(k + 1) * step])
+        out.append(c)
+    out.extend(rest[len(hang) * step:])
+    return out
 
 
 def distribution(cases, impl_out):
